@@ -151,3 +151,14 @@ CLAIMED["C01"] = dict(
         "not finish; range encoder/decoder equivalence undecided beyond one symbol. So this check does NOT establish "
         "end-to-end losslessness; it catches defects in the surrounding layers only.")
 NOT_APPLICABLE.pop("C01", None)
+CLAIMED["C12"] = dict(
+   text="Flush and option-change logic around the LZMA symbol coder, on the real lzma2_encode, lzma2 options update, "
+        "stream_encode (Block boundary) and stream_encoder_update, each from arbitrary states with the symbol encoder / "
+        "Block encoder as contract stubs: a flush completes only when no byte handed to the match finder is unencoded; "
+        "chunk headers carry the true sizes and reset level; no empty Block on flush without input; filter-chain update "
+        "accepted only where allowed, old chain kept and no half-initialised encoder left ready on refusal; lc/lp/pb "
+        "change only between chunks and announced in the next header; LZ window flush semantics.",
+   note="OUTSIDE: that the LZMA bits emitted before a flush decode to the input (needs the symbol coder: measured no "
+        "verdict), SYNC_FLUSH refusal by BCJ/LZMA1 at the raw encoder level beyond simple_code, the threaded encoder, "
+        "xz --flush-timeout/--block-list plumbing. LZMA2 size constants are scaled down in the chunk obligations.")
+NOT_APPLICABLE.pop("C12", None)
